@@ -35,7 +35,10 @@ pub fn job_c03(out_dir: &str, tier: &str, seed: u64) {
     let mut sh = Shards::new(out_dir, "c03", 500_000);
     let mut inputs: Vec<Vec<u8>> = gen::corpus(&mut rng, if quick { 26 } else { 60 }, if quick { 600 } else { 8000 });
     for _ in 0..(if quick { 2500 } else { 25000 }) { let k = 2 + rng.below(6); inputs.push(tag_soup(&mut rng, k)); }
-    for _ in 0..(if quick { 800 } else { 8000 }) { inputs.push(gen::foreign_doc(&mut rng, 12)); }
+    // the claimed domain: tag soup *without* svg / math tags, and (below) documents whose islands are well nested
+    let has_foreign = |i: &Vec<u8>| { let low = i.to_ascii_lowercase(); low.windows(4).any(|w| w == b"<svg") || low.windows(5).any(|w| w == b"<math") };
+    inputs.retain(|i| !has_foreign(i));
+    for _ in 0..(if quick { 1200 } else { 10000 }) { inputs.push(gen::foreign_doc(&mut rng, 12)); }
     // unhashable / special names around every integration point (the tag scanner has to hand these tags to the lexer)
     for ip in ["<math><mi>", "<math><mo>", "<math><mtext>", "<math><annotation-xml encoding=text/html>", "<svg><foreignObject>", "<svg><title>", "<svg><desc>"] {
         for nm in ["x-y", "verylongtagname12", "annotation-xml", "b"] {
